@@ -163,12 +163,16 @@ class YowNoiseLayer(YowLayer):
 
     def _on_protocol_state_changed(self, state):
         if state == WANoiseProtocol.STATE_TRANSPORT:
-            if self._rs != self._wa_noiseprotocol.rs:
-                config = self._profile.config
-                config.server_static_public = self._wa_noiseprotocol.rs
-                self._profile.write_config(config)
-                self._rs = self._wa_noiseprotocol.rs
-            self._flush_incoming_buffer()
+            try:
+                if self._rs != self._wa_noiseprotocol.rs:
+                    config = self._profile.config
+                    config.server_static_public = self._wa_noiseprotocol.rs
+                    self._profile.write_config(config)
+                    self._rs = self._wa_noiseprotocol.rs
+            finally:
+                # also when the profile could not be written: the frames that came in while the handshake was still
+                # running are waiting, and nothing else would hand them upward until further traffic arrives
+                self._flush_incoming_buffer()
 
     def _handle_stream_event(self, event, stream=None, segments=None):
         stream = stream or self._stream
